@@ -8,6 +8,7 @@ import (
 	"sync"
 	"syscall"
 	"time"
+	"unsafe"
 )
 
 // TCPConn returns the TCP connection under a scripted peer's connection (through the byte counter
@@ -56,6 +57,51 @@ func AbortConn(c net.Conn) bool {
 	tc.SetLinger(0)
 	tc.Close()
 	return true
+}
+
+// SendQueue returns how many bytes written on c its TCP still holds because the peer's TCP has not
+// acknowledged them (SIOCOUTQ: unsent and unacknowledged); -1 when that cannot be told (no TCP
+// connection underneath, a closed one).
+func SendQueue(c net.Conn) int {
+	tc := UnderlyingTCP(c)
+	if tc == nil {
+		return -1
+	}
+	rc, err := tc.SyscallConn()
+	if err != nil {
+		return -1
+	}
+	n := -1
+	rc.Control(func(fd uintptr) {
+		var v int32
+		const siocoutq = 0x5411
+		if _, _, e := syscall.Syscall(syscall.SYS_IOCTL, fd, siocoutq, uintptr(unsafe.Pointer(&v))); e == 0 {
+			n = int(v)
+		}
+	})
+	return n
+}
+
+// Drain waits until the peer's TCP has taken every byte written on c, for at most max. A scripted
+// peer that ends with a reset calls it first: closing with SO_LINGER 0 throws away whatever is still
+// in the send queue, so a reset sent a fixed time after the last write delivers fewer bytes than the
+// script says whenever the reader is slower than that (a loaded machine); what the peer's TCP has
+// acknowledged stays readable there after the reset (Linux keeps the receive queue). It reports
+// whether the queue emptied (true also when nothing can be told about it).
+func Drain(c net.Conn, max time.Duration) bool {
+	deadline := time.Now().Add(max)
+	for pause := 200 * time.Microsecond; ; {
+		if SendQueue(c) <= 0 {
+			return true
+		}
+		if time.Now().After(deadline) {
+			return false
+		}
+		time.Sleep(pause)
+		if pause < 5*time.Millisecond {
+			pause *= 2
+		}
+	}
 }
 
 // Blackhole is a loopback listener that never completes a further handshake: backlog 0 and the one
